@@ -1706,6 +1706,7 @@ func (h *fsHandler) compressAndOpenFSFile(filePath, fileEncoding string) (*fsFil
 
 	if compressedFilePath != filePath {
 		if err := os.MkdirAll(filepath.Dir(compressedFilePath), 0o750); err != nil {
+			_ = f.Close()
 			return nil, err
 		}
 	}
